@@ -98,6 +98,60 @@ impl Val for Fl {
     }
 }
 
+/// A float payload whose DEFAULT is -0.0: equal to the all-zero pattern under PartialEq, not in its bits.
+#[derive(Clone, Copy, PartialEq, PartialOrd, Debug)]
+pub struct FlNeg(pub f64);
+impl Val for FlNeg {
+    fn make(i: u8) -> FlNeg {
+        match i {
+            0 => FlNeg(-0.0),
+            1 => FlNeg(0.0),
+            _ => FlNeg(f64::NAN),
+        }
+    }
+    fn code(&self) -> u8 {
+        if self.0.is_nan() {
+            2
+        } else if self.0.to_bits() == (-0.0f64).to_bits() {
+            0
+        } else if self.0.to_bits() == 0 {
+            1
+        } else {
+            254
+        }
+    }
+}
+/// Equality ignores the second field; the default compares equal to the all-zero pattern but is not it.
+#[derive(Clone, Copy, Debug)]
+pub struct IgnZ(pub u8, pub u8);
+impl PartialEq for IgnZ {
+    fn eq(&self, o: &IgnZ) -> bool {
+        self.0 == o.0
+    }
+}
+impl PartialOrd for IgnZ {
+    fn partial_cmp(&self, o: &IgnZ) -> Option<std::cmp::Ordering> {
+        self.0.partial_cmp(&o.0)
+    }
+}
+impl Val for IgnZ {
+    fn make(i: u8) -> IgnZ {
+        match i {
+            0 => IgnZ(0, 7),
+            1 => IgnZ(5, 1),
+            _ => IgnZ(5, 2),
+        }
+    }
+    fn code(&self) -> u8 {
+        match self.1 {
+            7 => 0,
+            1 => 1,
+            2 => 2,
+            _ => 254,
+        }
+    }
+}
+
 #[derive(Clone, Copy, PartialEq, Eq, Debug)]
 pub enum Pred {
     Always,
@@ -111,12 +165,15 @@ pub enum Pred {
 pub enum Op {
     Add(u64, u8),
     ReplaceIf(u64, u8, Pred),
+    /// a lookup in the middle of a sequence (its answer is compared at once)
+    Get(u64),
 }
 impl Op {
     fn name(&self) -> String {
         match self {
             Op::Add(h, v) => format!("add({h:#x}, {v})"),
             Op::ReplaceIf(h, v, p) => format!("replace_if({h:#x}, {v}, {p:?})"),
+            Op::Get(h) => format!("get({h:#x})"),
         }
     }
 }
@@ -216,6 +273,14 @@ fn run_case<T: Val>(size: usize, seq: &[Op], alphabet: &[u64], slots: &[usize]) 
                 table.add(h, T::make(v));
                 model[slot_of(h)] = (h, v);
             }
+            Op::Get(h) => {
+                let slot = slot_of(h);
+                let want = if model[slot].0 == h { Some(model[slot].1) } else { None };
+                let got = table.get(h).map(|t: T| t.code());
+                if got != want {
+                    return Err(format!("get({h:#x}) in mid-sequence = {:?}, the model says {:?} (slot {} holds hash {:#x})", got, want, slot, model[slot].0));
+                }
+            }
             Op::ReplaceIf(h, v, p) => {
                 let slot = slot_of(h);
                 let old = model[slot].1;
@@ -276,6 +341,17 @@ fn crumb(b: &[u8]) -> String {
 fn explore<T: Val>(run: &Run, tyname: &'static str, size: usize, depth: usize, states: &Mutex<BTreeSet<Vec<(u64, u8)>>>) {
     explore_with::<T>(run, tyname, size, depth, states, hash_alphabet(size))
 }
+/// add x 2 values and get over the alphabet (no replace_if): lookups interleaved with writes
+pub fn ops_with_gets(alphabet: &[u64]) -> Vec<Op> {
+    let mut out = vec![];
+    for &h in alphabet {
+        out.push(Op::Add(h, 1));
+        out.push(Op::Add(h, 2));
+        out.push(Op::ReplaceIf(h, 2, Pred::Never));
+        out.push(Op::Get(h));
+    }
+    out
+}
 pub fn large_alphabet(size: usize) -> Vec<u64> {
     let s = size as u64;
     let mut v = vec![0, 1, s - 1, s, s + 1, 2 * s, s << 20, 1u64 << 41, (1u64 << 41) + 1, (1u64 << 63) | 1, u64::MAX, (1u64 << 41) + s];
@@ -292,6 +368,9 @@ fn explore_with<T: Val>(run: &Run, tyname: &'static str, size: usize, depth: usi
 }
 fn explore_ops<T: Val>(run: &Run, tyname: &'static str, size: usize, depth: usize, states: &Mutex<BTreeSet<Vec<(u64, u8)>>>, alphabet: Vec<u64>, with_panics: bool) {
     let ops = ops_from(&alphabet, with_panics);
+    explore_list::<T>(run, tyname, size, depth, states, alphabet, ops)
+}
+fn explore_list<T: Val>(run: &Run, tyname: &'static str, size: usize, depth: usize, states: &Mutex<BTreeSet<Vec<(u64, u8)>>>, alphabet: Vec<u64>, ops: Vec<Op>) {
     let a2 = alphabet.clone();
     let slots = match guard::lib(move || infer_slots::<T>(size, &a2)) {
         Ok(Ok(s)) => s,
@@ -363,10 +442,14 @@ fn op_json(o: &Op) -> Value {
     match o {
         Op::Add(h, v) => json!({"op": "add", "hash": format!("{h:#x}"), "value": v}),
         Op::ReplaceIf(h, v, p) => json!({"op": "replace_if", "hash": format!("{h:#x}"), "value": v, "pred": format!("{p:?}")}),
+        Op::Get(h) => json!({"op": "get", "hash": format!("{h:#x}")}),
     }
 }
 fn op_parse(v: &Value) -> Option<Op> {
     let h = u64::from_str_radix(v["hash"].as_str()?.trim_start_matches("0x"), 16).ok()?;
+    if v["op"] == "get" {
+        return Some(Op::Get(h));
+    }
     let val = v["value"].as_u64()? as u8;
     match v["op"].as_str()? {
         "add" => Some(Op::Add(h, val)),
@@ -489,7 +572,7 @@ fn huge_sizes(run: &Run) {
     }
 }
 
-pub const RULE: &str = "E2 over operation sequences: for each table size in {1, 2, 4, 8} and each value type (u8 and a 16-byte struct), EVERY sequence of up to 4 operations (thorough, phase 2, as far as the budget allows and reported in phase2_completed: 5 operations, size 16, one more operation for the other alphabets) over the alphabet {add, replace_if with always / never / old==default / old<new} x 6 hashes (0, 1, size-1, size, size+1, 2^32+1, 2^63, u64::MAX, 2*size+1 reduced to 6: slot-colliding and non-colliding, high-bit) x values {1, 2}; every sequence is replayed on a fresh real table and on a slot-array model (which hashes share a slot is observed on fresh tables, not assumed: the relation must be an equivalence with at most `size` classes); after it get(h) for every alphabet hash and the value handed to every predicate must agree. For sizes 1, 2, 8 the alphabet is extended by replace_if with a predicate that panics (caught by the caller; it never said 'true', so nothing may be replaced) to depth 3. Larger tables (32, 64, 1024, 65536 to depth 2; 2^20 to depth 1) with a 12-hash alphabet (0, 1, size-1, size, size+1, 2*size, size*2^20, 2^41, 2^41+1, 2^41+size, 2^63+1, u64::MAX) and three further value types (40-byte struct; float payload whose default is +0.0, value 1 is -0.0 and value 2 a NaN; a struct whose equality ignores one field), the default never being the all-zero bit pattern; for sizes >= 64 the alphabet also holds 31, 32, 33, size/2, size/2+1 are explored the same way. Construction: every size in 0..=1025 and 2^k, 2^k +- 1 for k <= 20 panics iff it is not a power of two, and a fresh table answers as (hash 0, default). Thorough tier: tables of 2^31 and 2^32 entries with a zero-sized payload (16 / 32 GiB), in a child process and only when MemAvailable allows (otherwise reported as a cap): construction, adds and lookups around slot 1, 2, size-1. Out-of-table access aborts loudly in this debug-assertion build. states = sequences (histories), transitions = operations replayed. distinct_nontrivial = distinct model states reached";
+pub const RULE: &str = "E2 over operation sequences: for each table size in {1, 2, 4, 8} and each value type (u8 and a 16-byte struct), EVERY sequence of up to 4 operations (thorough, phase 2, as far as the budget allows and reported in phase2_completed: 5 operations, size 16, one more operation for the other alphabets) over the alphabet {add, replace_if with always / never / old==default / old<new} x 6 hashes (0, 1, size-1, size, size+1, 2^32+1, 2^63, u64::MAX, 2*size+1 reduced to 6: slot-colliding and non-colliding, high-bit) x values {1, 2}; every sequence is replayed on a fresh real table and on a slot-array model (which hashes share a slot is observed on fresh tables, not assumed: the relation must be an equivalence with at most `size` classes); after it get(h) for every alphabet hash and the value handed to every predicate must agree. For sizes 1, 2, 8 the alphabet is extended by replace_if with a predicate that panics (caught by the caller; it never said 'true', so nothing may be replaced) to depth 3. Larger tables (32, 64, 1024, 65536 to depth 2; 2^20 to depth 1) with a 12-hash alphabet (0, 1, size-1, size, size+1, 2*size, size*2^20, 2^41, 2^41+1, 2^41+size, 2^63+1, u64::MAX) and three further value types (40-byte struct; float payload whose default is +0.0, value 1 is -0.0 and value 2 a NaN; a struct whose equality ignores one field), the default never being the all-zero bit pattern; for sizes >= 64 the alphabet also holds 31, 32, 33, size/2, size/2+1 are explored the same way. Lookups interleaved with writes: every sequence of up to 4 operations (5 for size 2) over {add x 2 values, replace_if(never), get} x 6 hashes for sizes 1, 2, 8 (every get is compared at once). Payloads whose default EQUALS the all-zero pattern without being it (-0.0; a struct whose equality ignores a non-zero field) at sizes 1, 64 and in tables of 2^22 and 2^23 entries (64 / 128 MiB). Construction: every size in 0..=1025 and 2^k, 2^k +- 1 for k <= 20 panics iff it is not a power of two, and a fresh table answers as (hash 0, default). Thorough tier: tables of 2^31 and 2^32 entries with a zero-sized payload (16 / 32 GiB), in a child process and only when MemAvailable allows (otherwise reported as a cap): construction, adds and lookups around slot 1, 2, size-1. Out-of-table access aborts loudly in this debug-assertion build. states = sequences (histories), transitions = operations replayed. distinct_nontrivial = distinct model states reached";
 
 pub fn run(tier: Tier) -> i32 {
     let run = Arc::new(Run::new("C19", tier, COUNTERS));
@@ -519,6 +602,22 @@ pub fn run(tier: Tier) -> i32 {
         explore_with::<Wide40>(&run, "Wide40", size, 2, &states, large_alphabet(size));
         explore_with::<Fl>(&run, "Fl", size, 2, &states, large_alphabet(size));
         explore_with::<Ign>(&run, "Ign", size, 2, &states, large_alphabet(size));
+    }
+    // lookups interleaved with writes: {add x 2, replace_if(never), get} over the 6-hash alphabet to depth 5
+    for &size in [1usize, 2, 8].iter() {
+        let a = hash_alphabet(size);
+        explore_list::<u8>(&run, "u8", size, if size == 2 { 5 } else { 4 }, &states, a.clone(), ops_with_gets(&a));
+    }
+    // defaults that EQUAL the all-zero pattern without being it (-0.0; a struct whose equality ignores a
+    // non-zero field), also in tables of 64 and 128 MiB (allocation fast paths for "zero" defaults)
+    for &size in [1usize, 64].iter() {
+        explore_with::<FlNeg>(&run, "FlNeg", size, 2, &states, large_alphabet(size));
+        explore_with::<IgnZ>(&run, "IgnZ", size, 2, &states, large_alphabet(size));
+    }
+    for &size in [1usize << 22, 1 << 23].iter() {
+        explore_with::<FlNeg>(&run, "FlNeg", size, 1, &states, vec![0, 1, size as u64 - 1, size as u64, size as u64 + 1, 1u64 << 41, u64::MAX]);
+        explore_with::<IgnZ>(&run, "IgnZ", size, 1, &states, vec![0, 1, size as u64 - 1, size as u64, size as u64 + 1, 1u64 << 41, u64::MAX]);
+        run.add("sizes", 1);
     }
     if run.over_budget() {
         run.cap("wall-clock budget reached during phase 1 of the sequence exploration".to_string());
@@ -570,7 +669,7 @@ pub fn replay(case: &Value) -> i32 {
             let mut alphabet = hash_alphabet(size);
             for o in ops.iter() {
                 let h = match o {
-                    Op::Add(h, _) | Op::ReplaceIf(h, _, _) => *h,
+                    Op::Add(h, _) | Op::ReplaceIf(h, _, _) | Op::Get(h) => *h,
                 };
                 if !alphabet.contains(&h) {
                     alphabet = large_alphabet(size);
@@ -582,6 +681,10 @@ pub fn replay(case: &Value) -> i32 {
                 guard::lib(|| infer_slots::<Ign>(size, &alphabet).and_then(|sl| run_case::<Ign>(size, &ops, &alphabet, &sl)))
             } else if case["type"] == json!("Fl") {
                 guard::lib(|| infer_slots::<Fl>(size, &alphabet).and_then(|sl| run_case::<Fl>(size, &ops, &alphabet, &sl)))
+            } else if case["type"] == json!("FlNeg") {
+                guard::lib(|| infer_slots::<FlNeg>(size, &alphabet).and_then(|sl| run_case::<FlNeg>(size, &ops, &alphabet, &sl)))
+            } else if case["type"] == json!("IgnZ") {
+                guard::lib(|| infer_slots::<IgnZ>(size, &alphabet).and_then(|sl| run_case::<IgnZ>(size, &ops, &alphabet, &sl)))
             } else if case["type"] == json!("u8") {
                 guard::lib(|| infer_slots::<u8>(size, &alphabet).and_then(|sl| run_case::<u8>(size, &ops, &alphabet, &sl)))
             } else {
